@@ -273,6 +273,9 @@ def main(tier, seed):
                 elif kind == "ok": ok = (so == wo and se == we and rc == 0)
                 elif kind == "exit": ok = (so == wo and se == we and rc == int(wend.split(" ")[1]))
                 elif kind == "err": ok = (so == wo and se.startswith(we) and rc not in (0, 1))
+                elif kind == "unspecified":
+                    # the definition leaves the run open from a write of a value >= 2^32 on: only what was written before is fixed
+                    ok = so.startswith(wo) and se.startswith(we)
                 else: ok = False
                 irr = ir_res.get("m.irrun %d %s %s 4000" % (lvl, encs[k], enc_text(i)), "")
                 mm = re.match(r"O=(\S+) E=(\S+) END (.*)$", irr)
